@@ -3,6 +3,7 @@
 From Coq Require Import ZArith List Bool Lia Sorting.Sorted Sorting.Permutation.
 From Coq Require Import ZifyBool.
 From Geo Require Import Base.GoPrim Gen.CellIDCov Model.Coverer Proofs.C05_CellFacts.
+From Geo Require Import Gen.CellID.  (* s2_CellID_RangeMin *)
 Import ListNotations.
 Local Open Scope Z_scope.
 
